@@ -53,6 +53,7 @@ func (m *CPU) Context() *risc.Context {
 }
 
 func (m *CPU) Run(app risc.Application) (int, error) {
+	app.Reset()
 	cycle := 0
 	for {
 		m.ctx.VerifTick(cycle)
